@@ -320,6 +320,10 @@ class binary_sequence():
         sizeof
     """
 
+    # let ``ndarray + binary_sequence`` fall through to ``__radd__`` instead of numpy trying to
+    # coerce the sequence into an array (NEP 13: opt out of ufunc overrides)
+    __array_ufunc__ = None
+
     def __init__(self, data: str | Iterable): 
         """ Initialize the binary sequence object.
 
